@@ -239,6 +239,29 @@ type bounds struct {
 	rest  int // the other skeletons on the primary kinds
 	minor int // every skeleton on the remaining kinds
 	deep  int // one filter skeleton on row read
+	qtop  int // quoted table names: symbols after the leading quoted name, on the kinds without a metadata probe
+	qrest int // the same on the other kinds
+}
+
+// Quoted table names: a name that begins and ends with a double quote and
+// holds an even number of them -- the shape of a name that is already a
+// delimited identifier -- with SQL between the quoted parts. Every symbol that
+// carries quotes carries a balanced pair.
+var quotedSymbols = []string{` `, `--`, `;`, ` WHERE 0`, `DELETE FROM `, `.`, `"t1"`, `"zsecret"`, `""`}
+
+func quotedTableNames(n int) []string {
+	var out []string
+
+	for _, first := range []string{`"t1"`, `"zsecret"`} {
+		for _, rest := range enum.AllStrings(quotedSymbols, 0, n) {
+			name := first + rest
+			if strings.HasSuffix(name, `"`) && !strings.Contains(name, "/") {
+				out = append(out, name)
+			}
+		}
+	}
+
+	return out
 }
 
 // rank of a kind for a parameter: 0 the first primary kind, 1 another primary
@@ -459,6 +482,23 @@ func enumerate(b bounds) []Case {
 				c.Table = name
 				out = append(out, c)
 			}
+		}
+	}
+
+	// 7b. Quoted table names. Row delete and the transaction delete task build
+	//     their statement without looking the table up first; they go deepest.
+	quotedPrimary := []string{kDelete, kTxDelete, kTxUpdate}
+
+	for _, k := range allKinds {
+		n := b.qrest
+		if rank(quotedPrimary, k) <= 1 {
+			n = b.qtop
+		}
+
+		for _, name := range quotedTableNames(n) {
+			c := base(k, "table-quoted")
+			c.Table = name
+			out = append(out, c)
 		}
 	}
 
